@@ -94,10 +94,14 @@ def main(argv=None) -> int:
     t0 = time.time()
     try:
         res = mod.run(tier, seed)
-    except Exception:
+    except Exception as exc:
         tb = traceback.format_exc()
         print(tb)
-        if "/metador_core/" in tb and os.environ.get("VERIF_STRICT_HARNESS") != "1":
+        infra = isinstance(exc, (MemoryError, OSError)) or "worker did not start" in tb or "worker failed to start" in tb
+        # an exception while driving the code under test: on a tree where the property holds the drivers run through
+        # (otherwise the check is broken anyway), so the changed behaviour of the library is the cause - also when the
+        # exception surfaces in Python's own machinery (e.g. a comparison operator that now raises TypeError)
+        if not infra and os.environ.get("VERIF_STRICT_HARNESS") != "1":
             # the code under test raised where the driver requires success (never happens on a tree where the
             # property holds, otherwise this check would be broken): report it as a violation, not as a harness error
             lib = [ln.strip() for ln in tb.splitlines() if "/metador_core/" in ln]
